@@ -8,13 +8,15 @@ import "time"
 // yield points, no control over map iteration order.
 const HaveInstr = false
 
-func SiteName(site int) string        { return "?" }
-func NumSites() int                   { return 0 }
-func LibSteps() uint64                { return 0 }
-func SitesHit() []int                 { return nil }
-func SetPermHook(f func(n int) []int) {}
-func SetNowHook(f func() time.Time)   {}
-func ClockReads() uint64              { return 0 }
+func SiteName(site int) string                      { return "?" }
+func NumSites() int                                 { return 0 }
+func LibSteps() uint64                              { return 0 }
+func SitesHit() []int                               { return nil }
+func SetPermHook(f func(n int) []int)               {}
+func SetNowHook(f func() time.Time)                 {}
+func ClockReads() uint64                            { return 0 }
+func SetEnvHook(f func(name string) (string, bool)) {}
+func EnvReads() uint64                              { return 0 }
 
 type SchedConfig struct {
 	Mode       int
